@@ -570,7 +570,7 @@ func (g *gen) step() {
 		if r.Chance(25) {
 			ps, _ = g.mutateInputs(ps)
 		}
-		s.OpMelt(q, ps, g.script(1+r.Intn(2), true))
+		s.OpMeltLn(q, ps, g.script(1+r.Intn(2), true), q.Internal && r.Chance(15))
 	case w < 86: // melt poll
 		if len(s.meltQs) == 0 {
 			return
